@@ -263,6 +263,13 @@ WORKBOOKS = {
         inputs={'A1': 'a', 'A2': 1},
         formulas={'B1': ('Plus', ['A2'], 1), 'C1': ('Plus', ['A1', 'A2', 'B1'], 0),
                   'D1': ('Plus', ['A2'], 5), 'E1': ('Cat', 'C1')}),
+    # C08: an input which is blank when the model is trimmed, read directly and
+    # through a range
+    'blankin': dict(
+        inputs={'A1': 1, 'A2': None},
+        formulas={'B1': ('Plus', ['A1', 'A2'], 0), 'C1': ('SumR', 'A1:A2'),
+                  'D1': ('Cat', 'A2'), 'E1': ('Plus', ['B1', 'C1'], 0)},
+        ranges={'A1:A2': [['A1'], ['A2']]}),
     # DESIGN C08: x uses a member of the range directly, s the range
     'trimex': dict(
         inputs={'A1': 1, 'B1': 2, 'A2': 5},
